@@ -150,7 +150,7 @@ def fixture_worlds(tier="thorough", seed=0):
 
 def text_only_literal(wd, res, eps):
     """the world without its probes (for questions about the text alone, e.g. membership in G)"""
-    lit, _ = world_literal(dict(wd, probes=[]), {k: v for k, v in res.items() if k != "probes"}, eps)
+    lit, _ = world_literal(dict(wd, probes=[]), dict(res, probes=[]), eps)
     return "{| cw := %s; cw_action := %s |}" % (lit, cstr(""))
 
 
